@@ -26,6 +26,10 @@ pub struct Case {
     pub isha2: F,
     pub imsaak2: F,
     pub date: NaiveDate,
+    /// boundary-directed: Some(k) = replace the latitude by the one found by bisecting (to adjacent f64 values) onto the
+    /// existence boundary of Fajr (k=0), Isha (1) or Imsaak (2) on that date, and evaluate the clauses on its valid side
+    #[serde(default)]
+    pub boundary_lat: Option<u8>,
 }
 
 const TOL_DATE_DEC: f64 = 0.03;
@@ -46,6 +50,63 @@ fn spec_for(c: &Case, second: bool) -> ParamSpec {
         s.imsaak_angle = Some(c.imsaak);
     }
     s
+}
+
+impl C03 {
+    /// Bisects the latitude onto the existence boundary of one twilight event (summer hemisphere, where the Sun's lower
+    /// culmination just reaches the depression) and evaluates all clauses at the last valid latitude and a few ulps
+    /// equatorward of it. Random latitudes never come within 1e-7 deg of that boundary.
+    fn boundary_directed(&self, c: &Case, k: u8, st: &mut Stats) -> Result<(), Failure> {
+        let spec = spec_for(c, false);
+        let (fa, ia, ima) = spec.angles();
+        let (prayer, angle) = match k {
+            0 => (Prayer::Fajr, fa),
+            1 => (Prayer::Isha, ia),
+            _ => (Prayer::Imsaak, fa + ima),
+        };
+        let d0 = ephem::dec0(c.date, c.site.gmt.0);
+        let sign = if d0 >= 0.0 { 1.0 } else { -1.0 };
+        let phi_b = 90.0 - angle - d0.abs();
+        if !(20.0..=59.7).contains(&phi_b) {
+            st.skip("boundary_latitude_outside_20_to_59.7");
+            return Ok(());
+        }
+        let valid = |lat: f64| -> bool {
+            let mut s = c.site;
+            s.lat = F(lat);
+            t(&compute(&s, &spec, c.date, None), prayer).is_some()
+        };
+        let (mut lo, mut hi) = (sign * (phi_b - 0.3), sign * (phi_b + 0.3).min(60.0));
+        if !valid(lo) || valid(hi) {
+            st.skip("boundary_bracket_not_found");
+            return Ok(());
+        }
+        for _ in 0..80 {
+            let mid = 0.5 * (lo + hi);
+            if mid == lo || mid == hi {
+                break;
+            }
+            if valid(mid) {
+                lo = mid;
+            } else {
+                hi = mid;
+            }
+        }
+        // last valid latitude and a few representable values equatorward of it
+        for j in 0..6i64 {
+            let lat = f64::from_bits((lo.to_bits() as i64 - j * if j < 4 { 1 } else { 1000 }) as u64);
+            let mut c2 = c.clone();
+            c2.site.lat = F(lat);
+            c2.boundary_lat = None;
+            self.check(&c2, st).map_err(|mut f| {
+                f.signature = format!("{}:at-existence-boundary", f.signature);
+                f.observed = format!("{} [latitude {:?} is {} f64 steps on the valid side of the {:?} existence boundary]", f.observed, lat, j, prayer);
+                f
+            })?;
+        }
+        st.class("boundary_directed_latitude_done");
+        Ok(())
+    }
 }
 
 impl Prop for C03 {
@@ -77,13 +138,18 @@ impl Prop for C03 {
                 isha2: F(i + u2 * (21.0 - i).max(0.0)),
                 imsaak2: F(im + u3 * (3.0 - im).max(0.0)),
                 date,
+                boundary_lat: None,
             })
+            .prop_flat_map(|c| prop_oneof![40 => Just(None), 1 => (0u8..3).prop_map(Some)].prop_map(move |b| Case { boundary_lat: b, ..c.clone() }))
             .boxed()
     }
     fn self_test(&self) -> Result<(), String> {
         ephem::self_test()
     }
     fn check(&self, c: &Case, st: &mut Stats) -> Result<(), Failure> {
+        if let Some(k) = c.boundary_lat {
+            return self.boundary_directed(c, k % 3, st);
+        }
         st.eval();
         let spec = spec_for(c, false);
         let (fa, ia, ima) = spec.angles();
@@ -95,6 +161,7 @@ impl Prop for C03 {
                 format!("{}/{}", fa, ia),
             ));
         }
+        prime(&c.site, &spec, c.date, None, prime_selector(&c.site, c.date));
         let times = compute(&c.site, &spec, c.date, None);
         let (lat, lon, gmt) = (c.site.lat.0, c.site.lon.0, c.site.gmt.0);
         let Some(dh) = t(&times, Prayer::Dhuhr) else {
